@@ -138,6 +138,8 @@ def replay(ctx, data):
 TECHNIQUE = "Lean 4: under the per-process bookkeeping invariant no operation the main loop performs raises (transition_ok, finish_ok incl. UNKNOWN, group stop, RPCs), RPC exceptions are contained; fault enumeration over the os-level seam under the unmodified runforever()"
 LEVEL_TEXT = ("no_assertion_in_pass_ops: for every process state satisfying the invariant (which every history preserves), every clock reading, "
               "mood and environment answer, transition/finish/stop_all/start/stop/signal complete without the AssertionError of _assertInState; "
-              "combined with exhaustive single-fault injection at every call index of base scenarios and hostile output/listener streams")
+              "daemon_never_asserts: no sequence of main-loop passes, under any environment and any RPCs, ends with an AssertionError escaping the loop "
+              "(induction over passes with the daemon invariant SInv); combined with exhaustive single-fault injection at every call index of "
+              "base scenarios, hostile output/listener streams, protocol-following listeners with late I/O and signalling-failure stories")
 LEVEL_NOTE = "the theorem covers the Subprocess/daemon logic; dispatcher parsing robustness is C07/C08/C10's models; errnos outside the realistic table are not claimed"
 DESIGN_REF = "DESIGN.md section 6, C06"
